@@ -321,6 +321,24 @@ def run_main_loop(ctx, rnd):
             ctx.count(f'mainloop:exit={o.code}')
             continue
         check_iterations(ctx, sc, o)
+    # contents with line structure and passes that re-flow it (same bytes, fewer / more non-blank lines): the only progress
+    # that lets the main loop go round again is fewer BYTES
+    for body in ('a\nb', 'a\nb\nc\n', 'x;\ny;\n\nz'):
+        for nn in (1, 2):
+            for extra in ([], [{'key': 3, 'ops': [('delch', 'z')], 'aos': 1, 'maxt': None, 'newfix': None}]):
+                main = [{'key': 1, 'ops': [('swap', 1)], 'aos': 1, 'maxt': None, 'newfix': None},
+                        {'key': 2, 'ops': [('swap', len(body) - 2)], 'aos': 1, 'maxt': None, 'newfix': None}] + extra
+                sc = {'files': [('f0.c', body)], 'rules': [([], 0)], 'group': {'first': [], 'main': main, 'last': []},
+                      'cfg': {'N': nn, 'no_cache': rnd.random() < 0.5}, 'sched': [rnd.randint(0, 7) for _ in range(20)]}
+                o = driver.run_scenario(sc, ctx.tmp, mode='reduce')
+                ctx.evaluations += 1
+                ctx.count('mainloop:re-flowing-passes')
+                if o.diverged:
+                    ctx.violation('driver-diverged', 'CVise.reduce did not finish within the step budget of the shim', {'scenario': sc, 'mode': 'reduce'})
+                    continue
+                red.append((driver.coq_scenario(sc, o.perm, 'reduce'), o.out, sc))
+                if o.code == 0:
+                    check_iterations(ctx, sc, o)
     cd.correspond(ctx, 'c03', [], red)
 
 
